@@ -5,8 +5,13 @@ reg("C08",
     case_type="c08_case", verdicts="c08_verdicts", scope="c08_in_scope",
     property_modules=[], theorems=[],
     proof_files=["Base/Prelude.v", "Model/Block.v", "Model/ForkDB.v", "Model/Forkable.v", "Model/Burst.v", "Model/Hub.v", "Model/HubSubs.v",
-                 "Spec/Consumer.v", "Check/Burst_Check.v", "Check/C08_Check.v"],
+                 "Spec/Consumer.v", "Check/Burst_Check.v", "Check/C08_Check.v", "Model/HubSched.v", "Check/C08S_Check.v"],
     n_quick=300, n_thorough=12000, n_escalate=3000,
+    # schedule-level model (Model/HubSched.v) against the real code at lock granularity: harness/c08sched.go, Check/C08S_Check.v
+    also=[{"harness": "C08S",
+           "check_imports": ["Model.Block", "Model.Forkable", "Model.Burst", "Model.Hub", "Model.HubSubs", "Model.HubSched",
+                             "Check.Burst_Check", "Check.C08_Check", "Check.C08S_Check"],
+           "case_type": "c08s_case", "verdicts": "c08s_verdicts", "scope": None, "n_quick": 60, "n_thorough": 1500}],
     rule="a real ready ForkableHub over a consensus-consistent history with short forks; 2/3 sequential operation sequences of 10-110 ops "
          "(push live block / subscribe by number, with forks, from cursor, through cursor / drain a subscription; 25% with a consumer that never "
          "reads, so its queue of 100+burst overflows) compared with the model; 1/3 concurrent: 2-16 goroutines subscribe together, released by a "
